@@ -1,13 +1,14 @@
 #!/bin/sh
 # Offline setup: nothing to build; verify the toolchain and SANY-parse every specification.
 set -e
-cd "$(dirname "$0")/.."
+cd "$(dirname "$0")/../spec"
 java -version 2>&1 | head -1
 test -f /opt/veriftools/tla/tla2tools.jar
 /venv/bin/python -c "import numpy, mpmath, sympy, hypothesis; print('python deps ok')"
-for f in spec/*.tla; do
-  java -cp /opt/veriftools/tla/tla2tools.jar:/opt/veriftools/tla/CommunityModules-deps.jar tla2sany.SANY "$f" > /tmp/sany.$$ 2>&1 || { cat /tmp/sany.$$; rm -f /tmp/sany.$$; exit 1; }
-  if grep -q -E "Semantic errors|Parse Error|\*\*\* Errors" /tmp/sany.$$; then cat /tmp/sany.$$; rm -f /tmp/sany.$$; exit 1; fi
+OUT="${TMPDIR:-/var/tmp}/verif-sany.$$"
+for f in *.tla; do
+  java -DTLA-Library="$(pwd)" -cp /opt/veriftools/tla/tla2tools.jar:/opt/veriftools/tla/CommunityModules-deps.jar tla2sany.SANY "$f" > "$OUT" 2>&1 || { cat "$OUT"; rm -f "$OUT"; exit 1; }
+  if grep -q -E "Semantic errors|Parse Error|\*\*\* Errors|Fatal errors" "$OUT"; then cat "$OUT"; rm -f "$OUT"; exit 1; fi
 done
-rm -f /tmp/sany.$$
+rm -f "$OUT"
 echo "setup ok"
